@@ -83,6 +83,9 @@ C03_StatusMatches == \A id \in Ids :
      /\ (p.status = "passed") <=> (execd[id] = 0 /\ ~closedH[id] /\ RulePassed(p.thr, p.total, t, x))
      /\ p.status = "rejected" => closedH[id] \/ (x /\ ~RulePassed(p.thr, p.total, t, TRUE)) \/ ~RuleCanPass(p.thr, p.total, t)
      /\ p.status = "open" => ~x /\ ~RulePassed(p.thr, p.total, t, FALSE)
+\* every query that reports a proposal reports the same status (and total weight) for it
+C03_QueriesAgree == \A id \in Ids :
+  LET p == props[id] IN p.lstatus = p.status /\ p.rstatus = p.status /\ p.ltotal = p.total /\ p.rtotal = p.total
 C03_PassedHasYes == \A id \in Ids :
   props[id].status \in {"passed", "executed"} => Tally(props[id]).yes > 0
 C03_ExecuteAdmitted == Step /\ IsOk("execute") =>
@@ -114,7 +117,7 @@ C05_IdsIncrease == Step =>
 C05_Immutable == Step => \A id \in Ids :
   LET p == props[id]  q == props'[id] IN
   KF3q(id) \/ (q.title = p.title /\ q.msgs = p.msgs /\ q.thr = p.thr /\ q.total = p.total /\ q.expires = p.expires
-                /\ q.proposer = p.proposer /\ q.dep = p.dep)
+                /\ q.proposer = p.proposer /\ q.dep = p.dep /\ q.ltotal = p.ltotal /\ q.rtotal = p.rtotal)
 MaxExpiry(t) == IF cfg.period.k = "h" THEN [k |-> "h", v |-> t.h + cfg.period.v] ELSE [k |-> "t", v |-> t.t + cfg.period.v]
 C05_ExpiryBounded == Step /\ IsOk("propose") =>
   LET q == props'[Len(props')]  mx == MaxExpiry(now')  lt == E.args.latest IN
